@@ -24,7 +24,7 @@ pub const MAX_CHARS: usize = 500;
 pub const MAX_EXP_DIGITS_VALUE: u64 = 5000;
 pub const MAX_DIGITS_ARG: u64 = 10_000;
 pub const MAX_BITS: u64 = 1 << 15;
-pub const MAX_FACTORIZE_SCORE: i64 = 6;
+pub const MAX_FACTORIZE_SCORE: i64 = 10;
 
 /// does the text contain a literal exponent above 5000 (any `e`/`E` followed by such digits)?
 pub fn has_huge_exponent(text: &str) -> bool {
@@ -60,6 +60,35 @@ pub fn has_huge_exponent(text: &str) -> bool {
                 if digits > 0 && v > MAX_EXP_DIGITS_VALUE {
                     return true;
                 }
+            }
+        }
+        i += 1;
+    }
+    false
+}
+
+/// does the text raise something to a literal power above 5000, or shift by that much (`^`, `**`, `<<`
+/// followed, after blanks, signs and opening parentheses, by such an integer)? In a whole file the base is
+/// unknown, so this over-approximates "astronomically large".
+pub fn has_huge_power(text: &str) -> bool {
+    let chars: Vec<char> = text.chars().collect();
+    let mut i = 0;
+    while i < chars.len() {
+        let op = chars[i] == '^' || (chars[i] == '*' && i + 1 < chars.len() && chars[i + 1] == '*') || (chars[i] == '<' && i + 1 < chars.len() && chars[i + 1] == '<');
+        if op {
+            let mut k = i + 1;
+            while k < chars.len() && (chars[k] == '*' || chars[k] == '<' || chars[k] == ' ' || chars[k] == '\t' || chars[k] == '-' || chars[k] == '+' || chars[k] == '(') {
+                k += 1;
+            }
+            let mut v: u64 = 0;
+            while k < chars.len() && (chars[k].is_ascii_digit() || chars[k] == '_' || chars[k] == '\u{2009}') {
+                if let Some(d) = chars[k].to_digit(10) {
+                    v = v.saturating_mul(10).saturating_add(d as u64);
+                }
+                k += 1;
+            }
+            if v > MAX_EXP_DIGITS_VALUE {
+                return true;
             }
         }
         i += 1;
@@ -365,25 +394,8 @@ pub fn classify(ctx: &Context, line: &str, ans_bits: (u64, u64)) -> Classified {
         }
         Query::Factorize(e) => {
             it.size(e);
-            if it.why.is_none() {
-                // the search is exponential in the complexity of the dimensionality (finding F-11)
-                let score = match e {
-                    Expr::Unit { name } if ctx.registry.quantities.values().any(|q| q == name) => ctx
-                        .registry
-                        .quantities
-                        .iter()
-                        .find(|(_, q)| *q == name)
-                        .map(|(d, _)| d.iter().map(|(_, p)| 1 + p.abs()).sum::<i64>())
-                        .unwrap_or(0),
-                    _ => match catch(|| ctx.eval(e)) {
-                        Ok(Ok(Value::Number(n))) => n.complexity_score(),
-                        _ => 0,
-                    },
-                };
-                if score > MAX_FACTORIZE_SCORE {
-                    it.flag("factorize of a dimensionality with complexity score above 6 (exponential search)");
-                }
-            }
+            // since the search remembers each dimensionality and refuses hopeless ones (fix for
+            // finding F-11) a factorize costs at most a few seconds whatever its operand
         }
         Query::Search(_) => {}
         Query::Error(_) => parsed_ok = false,
